@@ -71,8 +71,8 @@ def _reads(x, out):
         if "l" in x and "p" in x and isinstance(x["l"], int):
             out.add(x["l"])
             for pe in x["p"]:
-                if isinstance(pe, dict) and "idx" in pe:
-                    out.add(pe["idx"])
+                if isinstance(pe, dict) and isinstance(pe.get("i"), int) and set(pe.keys()) <= {"i", "ty"}:
+                    out.add(pe["i"])
             return
         for v in x.values():
             _reads(v, out)
